@@ -24,6 +24,7 @@ RULE = ("pairs and triples of corpus scripts (all verbs and transfer kinds) on d
         "(scripts, global event order) signatures - i.e. distinct interleavings actually observed; non-trivial = the network "
         "events of two sessions really alternate at least twice.")
 RULE += ("  " + "Also: the same transfer kind in several sessions with a suspending back end; aioftp's own client in 2-3 sessions of one process; PathIO / AsyncPathIO worlds; an account limited to two connections next to sessions that mistype its password.")
+RULE += ("  " + 'Also: a session retrying its login next to real logins of an account limited to two connections; accounts with differing permissions using the same virtual paths.')
 ASSUMPTIONS = ["MemoryPathIO back end shared by all sessions of the server (as in production: one state per server)",
                "pinned clock for file times"]
 REQUIRED_MONITORS = ["transcript_vs_solo", "tree_vs_solo", "backend_prefix", "clients_vs_solo"]
